@@ -10,11 +10,10 @@ from .c06 import lab_key
 
 DUMMY = {"op": "union", "a": {"name": "x", "kind": "i", "labels": []}, "b": {"name": "x", "kind": "i", "labels": []}, "join": "outer"}
 
-# TODO(defect): a.diff(axis=(d1, d2)) without keepaxis raises AttributeError ("MultiAxis object has no attribute
-# _monotonic": the grouped axis cannot be sliced) for the backward / forward schemes, although the docstring of diff
-# announces tuples of axes (only keepaxis=True works).  The tuple form is outside the quantifier of C09 ("every axis by
-# name or position").  While this is open the tuple stratum of diff is generated with keepaxis=True only.
-TODO_DEFECT_DIFF_TUPLE = True
+# (repaired: a.diff(axis=(d1, d2)) without keepaxis raised AttributeError "MultiAxis object has no attribute _monotonic" -
+# the grouped axis could not be sliced - for the backward / forward schemes; MultiAxis.__init__ now initialises the cached
+# ordering state.  The tuple stratum of diff is generated with both keepaxis settings.)
+TODO_DEFECT_DIFF_TUPLE = False
 
 
 def canon_component(x):
@@ -63,8 +62,8 @@ class C09(Prop):
             "str labels, metadata on the array and on (some of) its axes, NaNs (some / whole fibre / all) in the values; "
             "cumsum / cumprod (default and every axis by name / position, tuples / lists of names and positions; skipna "
             "default / False / True, by keyword or positionally); diff with n in {1,2,3}, the three "
-            "schemes and both keepaxis settings, NaNs propagating, and over a tuple of dimensions (keepaxis only, see "
-            "TODO_DEFECT_DIFF_TUPLE); argmin / argmax over the whole array, along each axis and over tuples of "
+            "schemes and both keepaxis settings, NaNs propagating, and over a tuple of dimensions (both keepaxis "
+            "settings); argmin / argmax over the whole array, along each axis and over tuples of "
             "dimensions, with ties, NaNs, all-NaN slices and both skipna settings, checked also by indexing back. "
             "Non-trivial = operated axis longer than 1; distinct = canonical JSON")
     assumptions = ["np.cumsum / np.diff / np.argmin (and the nan-prefixed variants for skipna=True) on a 1-D fibre are NumPy's",
@@ -444,7 +443,12 @@ class C09(Prop):
                 prop_bad.append("dims:grouped")
             else:
                 g = got["axes"][0]
-                if [m["name"] for m in g.get("members", [])] != listed:
+                if not c["keepaxis"]:
+                    # the shortened axis is a selection of the group's combinations (no longer the full product of the
+                    # member axes): a plain axis holding the remaining tuples
+                    if g.get("members") or [[comp_of_canon(x) for x in l[1]] if l[0] == "t" else None for l in g["labels"]] != wl:
+                        prop_bad.append("axes.labels:grouped")
+                elif [m["name"] for m in g.get("members", [])] != listed:
                     prop_bad.append("axes.members")
                 elif [[canon_component(x) for x in t] for t in g.get("tuples", [])] != wl:
                     prop_bad.append("axes.labels:grouped")
